@@ -3,6 +3,8 @@ nothing; membership predicates are exact.  See DESIGN.md §2 C01."""
 from .. import boot  # noqa: F401
 import math
 
+import numpy as np
+
 from gym_gridverse.action import Action
 from gym_gridverse.agent import Agent
 from gym_gridverse.debugging import reset_gv_debug
@@ -54,6 +56,7 @@ REQUIRED = {
         'step.shipped': 2000,
         'obs.checked': 5000,
         'rejected_action': 50,
+        'rejected_junk': 50,
         'predicate.state': 500,
         'predicate.observation': 500,
         'edge_out.top_out': 100,
@@ -345,15 +348,32 @@ def rng_state(env):
     return None if r is None else repr(r.bit_generator.state)
 
 
+class _Junk:
+    def __init__(self, value):
+        self.value = value
+
+
+JUNK_ACTIONS = [None, 0, 1, 7, -1, 'MOVE_FORWARD', 'junk', 2.5, np.int64(1), (), [], {}, np.array(2)]
+
+
 def rejected_actions(ctx, env, state, label, payload_fn):
     """every Action member outside the action space: ValueError, and nothing
     changes (state, memoised observation, generator state)"""
     outside = [a for a in Action if a not in env.action_space.actions]
-    for a in outside:
+    # values that are not Action members at all (an index, a name, None, containers, arrays) are outside every action
+    # space too; they get the same treatment, once per label family
+    junk = [_Junk(j) for j in JUNK_ACTIONS] if ctx.hits['rejected_junk'] < 400 or ctx.evaluations % 50 == 0 else []
+    for a in outside + junk:
+        is_junk = isinstance(a, _Junk)
+        if is_junk:
+            a = a.value
+            ctx.hit('rejected_junk')
+        nm = a.name if isinstance(a, Action) else f'non-action {a!r}'
+        a_name = nm
         ok, want_member = call_real(env.action_space.contains, a)
-        if not ok or want_member is not False:
+        if not is_junk and (not ok or want_member is not False):
             ctx.violation('predicate_action', 'predicate.action',
-                          f'{label}: ActionSpace.contains({a.name}) -> {want_member!r} for an action outside',
+                          f'{label}: ActionSpace.contains({nm}) -> {want_member!r} for an action outside',
                           'rejected', payload_fn())
         for stateful in (False, True):
             env._state = state
@@ -370,22 +390,22 @@ def rejected_actions(ctx, env, state, label, payload_fn):
             tag = 'step' if stateful else 'functional_step'
             if ok:
                 ctx.violation('rejected_action', 'action.accepted',
-                              f'{label}: {tag}({a.name}) outside the action space was accepted', 'rejected',
+                              f'{label}: {tag}({a_name}) outside the action space was accepted', 'rejected',
                               payload_fn())
             elif not isinstance(res, ValueError):
                 ctx.violation('rejected_action', 'action.wrong_exception',
-                              f'{label}: {tag}({a.name}) rejected with {describe_exc(res)} instead of ValueError',
+                              f'{label}: {tag}({a_name}) rejected with {describe_exc(res)} instead of ValueError',
                               'rejected', payload_fn())
             if enc.es(env._state) != before_s or env._state is not state:
                 ctx.violation('rejected_action', 'action.changed_state',
-                              f'{label}: rejected {tag}({a.name}) changed the state', 'rejected', payload_fn())
+                              f'{label}: rejected {tag}({a_name}) changed the state', 'rejected', payload_fn())
             if env._observation is not memo:
                 ctx.violation('rejected_action', 'action.changed_observation',
-                              f'{label}: rejected {tag}({a.name}) dropped/replaced the memoised observation',
+                              f'{label}: rejected {tag}({a_name}) dropped/replaced the memoised observation',
                               'rejected', payload_fn())
             if rng_state(env) != before_r:
                 ctx.violation('rejected_action', 'action.consumed_randomness',
-                              f'{label}: rejected {tag}({a.name}) moved the generator', 'rejected', payload_fn())
+                              f'{label}: rejected {tag}({a_name}) moved the generator', 'rejected', payload_fn())
     for a in env.action_space.actions:
         ok, m = call_real(env.action_space.contains, a)
         if not ok or m is not True:
